@@ -515,6 +515,25 @@ def run(ctx):
         "the closed forms in Derivs.tla were cross-checked once against 60-digit central differences of the value "
         "function (spec/derivs/crosscheck.py, 7106 configurations, worst deviation 5e-28)",
         "comparison at 1e-9 relative after multiplying by the integer scale factors; singular geometries excluded"]
+    if getattr(ctx, "replay", None):
+        # re-run exactly one recorded vector (the expectation inside it came from TLC)
+        import json
+        r = json.load(open(ctx.replay))["replay"]
+        if "k" in r:
+            cmds, chk = [_geom_cmd(r)], (lambda out: _check_geom(ctx, r, out[0]))
+        elif r.get("fn") == "cbspl":
+            cmds, chk = _spl_cmds(r), (lambda out: _check_spl(ctx, r, out))
+        elif "fn" in r:
+            cmds, chk = _lj_cmds(r)[0], (lambda out: _check_lj(ctx, r, out))
+        else:
+            cmds, chk = _spline_cmds(r), (lambda out: _check_spline(ctx, r, out))
+        results, crashes = vlib.run_items(exe, [(0, cmds)], env={"VERIF_SCRATCH": vlib.SCRATCH})
+        ctx.count()
+        if 0 in crashes:
+            ctx.violation("replay:crash", crashes[0], r)
+        else:
+            chk(results[0])
+        return
     run_geometry(ctx, exe)
     run_potentials(ctx, exe)
     run_splines(ctx, exe)
